@@ -356,7 +356,7 @@ def run(ctx):
     ctx.require("adds", "readds", "removes", "refused_add_dup", "refused_remove_unreg", "index_lookups_shared_address",
                 "dispatch_lists_equal", "dispatch_to_several_devices", "telegrams_generated_by_devices", "started_midway",
                 *("add_" + c for c in CLASSES))
-    n = ctx.scale(1200, 128000)
+    n = ctx.scale(1200, 96000)
     for i in range(n):
         if ctx.mine(i):
             run_one(ctx, f"C37/{ctx.seed}/{i}")
